@@ -682,8 +682,8 @@ void gen_history(Rng& r, const GenCfg& cfg, std::vector<Op>& out, int& next_id, 
       else if (a < 57) { o.kind = OK_A2S; o.i[0] = gen_Z(r); st.hs.push_back({id, HT_STRING, false}); }
       else if (a < 59) {
         // the small exported helpers (complex arithmetic, allocation wrappers, the variadic error constructor)
-        static const char* const fns[] = {"c_abs", "c_mul", "xrl_malloc", "xrl_strdup", "xrl_strndup", "xrl_error_new"};
-        o.kind = OK_MISC; o.fn = fns[r.below(6)]; o.selfc = 1;
+        static const char* const fns[] = {"c_abs", "c_mul", "xrl_malloc", "xrl_strdup", "xrl_strndup", "xrl_error_new", "release_nulls"};
+        o.kind = OK_MISC; o.fn = fns[r.below(7)]; o.selfc = 1;
         for (int k = 0; k < 4; k++) o.d[k] = r.chance(4, 5) ? (r.unit() - 0.5) * 200 : gen_E(r);
         o.i[0] = r.chance(9, 10) ? r.range(0, 300) : r.range(0, 70000);
         bool isnull; o.s = maybe_long(r, gen_compound_arg(r, &isnull));
